@@ -462,4 +462,58 @@ theorem parse_print (d : Desc) (h : WF d) : parse (print d) = .ok (norm d) := Sd
 theorem parse_print_exact (d : Desc) (h : WF d) : parse (print (norm d)) = .ok (norm d) := by
   rw [parse_print (norm d) (SdpLines.wf_norm d h), norm_idem]
 
+/-- **decimal_roundtrip** (character level) — `n.to_string().parse::<uN>() == Ok(n)` for `n < 2^N`
+(`bound = 2^N`), the fact behind every numeric field. -/
+theorem decimal_roundtrip (bound n : Nat) (h : n < bound) : parseUnsigned bound (natStr n) = some n :=
+  parseUnsigned_natStr bound n h
+
+/-- **origin_roundtrip** (character level) — `o=` reads back as written: user name / address tokens,
+`u64` ids, `IN`, `IP4` / `IP6`. -/
+theorem origin_roundtrip (o : Origin) (hu : IsTok o.username) (ha : IsTok o.address)
+    (h1 : o.sessionId < 18446744073709551616) (h2 : o.sessionVersion < 18446744073709551616) :
+    Origin.parse o.text = some o := SdpLines.origin_roundtrip o hu ha h1 h2
+
+/-- **timing_roundtrip** (character level) -/
+theorem timing_roundtrip (a b : Nat) (ha : a < 18446744073709551616) (hb : b < 18446744073709551616) :
+    parseTiming (timingText a b) = some (a, b) := SdpLines.timing_roundtrip a b ha hb
+
+/-- **mline_roundtrip** (character level) — `m=<kind> <port> <proto> <fmt>…` reads back as written for
+every kind, `u16` port, token protocol and non-empty list of token formats. -/
+theorem mline_roundtrip (m : Media) (hp : m.port < 65536) (hproto : IsTok m.proto) (hne : m.formats ≠ [])
+    (hf : ∀ f ∈ m.formats, IsTok f) :
+    parseMLine (mLineText m) = some { m with mid := [], dir := .sendrecv, attrs := [], connection := none } :=
+  SdpLines.mline_roundtrip m hp hproto hne hf
+
+/-- **parse_print_structural** — `parse_print` with the character-level facts discharged: for every
+description whose numeric fields are in range, whose user name / address / protocols / formats are
+non-empty tokens, with at least one format per section and plain attribute keys (`WF'`). -/
+theorem parse_print_structural (d : Desc) (h : WF' d) : parse (print d) = .ok (norm d) :=
+  parse_print d (SdpLines.wf_of_structural d h)
+
+/-- **parse_text_print** (text level) — with the CRLF framing, `str::lines()`, `trim()` and
+`split_once('=')`: parsing the printed TEXT gives `norm d`, provided no printed line contains a line
+break or has white space at either end (`LineOK`, decidable). -/
+theorem parse_text_print (d : Desc) (h : WF' d) (hl : ∀ l ∈ print d, LineOK l) :
+    parseText (printText (print d)) = .ok (norm d) := by
+  rw [SdpLines.parseText_printText _ hl]
+  exact parse_print_structural d h
+
+/-- non-vacuity: a two-section description (BUNDLE, ICE / DTLS attributes, codecs) is well-formed, all its
+printed lines are `LineOK`, and it is NOT in normal form (the printer does reorder it). -/
+def sampleDesc : Desc :=
+  { session := { version := 0, origin := ⟨['-'], 4611731400430051336, 2, false, "127.0.0.1".toList⟩, name := ['-'],
+                 start := 0, stop := 0, connection := none,
+                 attrs := [attr "group" "BUNDLE 0 1".toList, attr "msid-semantic" " WMS".toList] },
+    media := [
+      { kind := .audio, mid := "0".toList, port := 9, proto := "UDP/TLS/RTP/SAVPF".toList, formats := ["111".toList, "0".toList],
+        dir := .sendonly, connection := some "IN IP4 0.0.0.0".toList,
+        attrs := [flag "rtcp-mux", attr "ice-ufrag" "abcd".toList, attr "rtpmap" "111 opus/48000/2".toList,
+                  attr "setup" "actpass".toList, attr "fingerprint" "sha-256 AA:BB".toList] },
+      { kind := .application, mid := [], port := 9, proto := "UDP/DTLS/SCTP".toList, formats := ["webrtc-datachannel".toList],
+        dir := .sendrecv, connection := none, attrs := [attr "sctp-port" "5000".toList] }] }
+
+example : WF' sampleDesc ∧ (∀ l ∈ print sampleDesc, LineOK l) ∧ norm sampleDesc ≠ sampleDesc ∧
+    parseText (printText (print sampleDesc)) = .ok (norm sampleDesc) := by
+  refine ⟨by decide, by decide, by decide, parse_text_print _ (by decide) (by decide)⟩
+
 end RtcModel.Theorems.C08
